@@ -235,6 +235,7 @@ unexpected_cfgs = { level = "allow", check-cfg = ['cfg(kani)'] }
         p = self._kani(["-j", str(jobs), "-Z", "unstable-options", "--harness-timeout", str(self.harness_timeout)], timeout)
         self.kani_wall += time.time() - t0
         out = p.stdout + "\n" + p.stderr
+        open(os.path.join(self.dir, "kani.log"), "w").write(out)
         m = re.search(r"Complete - (\d+) successfully verified harnesses, (\d+) failures, (\d+) total", out)
         if not m:
             raise Undecided("kani did not complete on %s: %s" % (self.name, out[-3000:]))
@@ -385,7 +386,19 @@ def run_family(ctx, pid, progs, canary=None, per=60, compile_violation=True, ext
             c.add(canary)
         c.write()
         rej = c.triage()
-        res = c.run_kani(timeout=timeout, jobs=jobs)
+        stats.setdefault("native_checks", 0)
+        if any(p.ncheck and p.name not in c.excluded for p in c.progs):
+            nat = c.run_native()
+            for p in c.progs:
+                if p.ncheck and p.name not in c.excluded:
+                    stats["native_checks"] += 1
+                    for msg in nat.get(p.name, [])[:3]:
+                        ctx.violation("E:%s:native:%s:%s" % (pid, p.meta.get("describe", p.name), msg[:60]), "native run on the real expansion: " + msg,
+                                      {"layer": "E", "program": p.text, "harness": "ncheck", "meta": p.meta, "extra_support": extra_support, "native": msg})
+        if any(p.harnesses for p in c.progs if p.name not in c.excluded):
+            res = c.run_kani(timeout=timeout, jobs=jobs)
+        else:
+            res = {}
         if ci == 0 and canary is not None:
             can = [h for h in res if h.startswith(canary.name + "::")]
             if not can or all(res[h]["ok"] for h in can):
